@@ -9,6 +9,7 @@ import (
 	"bytes"
 	"encoding/json"
 	"fmt"
+	"os"
 	"reflect"
 
 	cbor "github.com/fxamacker/cbor/v2"
@@ -54,6 +55,9 @@ type hWithIface struct {
 	HIface
 	X *int `cbor:"10,keyasint" json:"x"`
 }
+
+// hThorough: the thorough tier widens the stated bounds (govc exports VERIF_TIER to the test run).
+func hThorough() bool { return os.Getenv("VERIF_TIER") == "thorough" }
 
 func hModes() (cbor.EncMode, cbor.DecMode) {
 	em, _ := cbor.EncOptions{IndefLength: cbor.IndefLengthForbidden}.EncMode()
@@ -209,7 +213,16 @@ func boundedReflectCBOR() (ok bool) {
 		return false
 	}
 	// header boundaries with synthetic structs of n int fields
-	for _, n := range []int{0, 1, 23, 24, 25, 255, 256, 257} {
+	ns := []int{0, 1, 23, 24, 25, 255, 256, 257}
+	if hThorough() {
+		// every count up to 300, and the 16-bit / 32-bit header boundary
+		ns = nil
+		for n := 0; n <= 300; n++ {
+			ns = append(ns, n)
+		}
+		ns = append(ns, 65535, 65536, 65537)
+	}
+	for _, n := range ns {
 		if !hManyFields(em, dm, n) {
 			return false
 		}
@@ -338,7 +351,11 @@ func boundedPopulateNoPanic() (ok bool) {
 			b := append([]byte{}, s[:cut]...)
 			try(func() { _ = PopulateStructFromCBOR(dm, b, &hTwo{}) })
 		}
-		for pos := 0; pos < len(s) && pos < 6; pos++ {
+		maxPos := 6
+		if hThorough() {
+			maxPos = len(s) // every single-byte substitution at every offset
+		}
+		for pos := 0; pos < len(s) && pos < maxPos; pos++ {
 			for x := 0; x < 256; x++ {
 				b := append([]byte{}, s...)
 				b[pos] = byte(x)
